@@ -1,8 +1,10 @@
 """C19 — listing, viewing and validating a DAG has no side effects."""
-import json, subprocess
+import json, os, re, subprocess, tempfile
+from concurrent.futures import ThreadPoolExecutor
 import common
 
 TIE = {"Load": ["effectSites", "callEdges", "builderFields", "entryOpts", "defStructs",
+                "displayFuncs", "displaySites", "displayEdges", "displayLoaderCalls",
                 "h_load_build", "h_load_buildEnvs", "h_load_buildLogDir", "h_load_buildParams", "h_load_buildSMTPConfig",
                 "h_load_loadVariables", "h_load_parseParams", "h_load_parseParamValue", "h_load_substituteCommands",
                 "h_load_buildStep", "h_load_buildSteps", "h_load_buildHandlers",
@@ -27,11 +29,15 @@ RUNTIME_PATHS = CALL_PATHS + ["steps[].command", "handlerOn.exit.command"]
 NO_VAR_SHAPES = ["dq-only", "two-commands"]        # shapes without a `$…` word: a function template stays well-formed
 
 
-REQUIRED_SHAPES = ["bare", "named-bare", "dq-start", "dq-mid", "dq-end", "named-dq", "multi", "multi-dq-last", "embedded", "sq", "indented", "dollar-paren"]
+REQUIRED_SHAPES = ["bare", "named-bare", "dq-start", "dq-mid", "dq-end", "named-dq", "multi", "multi-dq-last", "embedded", "sq", "indented", "dollar-paren",
+                   "dq-arg-then-bare", "sq-arg-then-bare"]
 BACKTICK_SHAPES = ["bare", "named-bare", "dq-start", "dq-mid", "dq-end", "dq-only", "named-dq", "named-dq-escaped", "multi", "multi-dq-last",
-                   "embedded", "sq", "indented", "two-commands"]
+                   "embedded", "sq", "indented", "two-commands", "dq-arg-then-bare", "sq-arg-then-bare"]
+# a command line with a quoted argument AND a substitution outside the quotes (echo "report for" `touch F` / echo 'all done' `touch F`)
+QUOTED_ARG_SHAPES = ["dq-arg-then-bare", "sq-arg-then-bare"]
 # shapes that the evaluating entry point must execute, per field (the rest of the shapes is not command syntax there)
-LIVE_UNDER_LOAD = {"params": ["bare", "named-bare", "dq-start", "dq-mid", "dq-end", "dq-only", "named-dq", "named-dq-escaped", "multi-dq-last"],
+LIVE_UNDER_LOAD = {"params": ["bare", "named-bare", "dq-start", "dq-mid", "dq-end", "dq-only", "named-dq", "named-dq-escaped", "multi-dq-last",
+                              "dq-arg-then-bare", "sq-arg-then-bare"],
                    "env": BACKTICK_SHAPES, "logDir": BACKTICK_SHAPES}
 
 
@@ -44,6 +50,274 @@ def run_harness(binp, cases, chk, what):
     return [json.loads(l) for l in p.stdout.splitlines()]
 
 
+# ------------------------------------------------------------------ display stream
+# The same canary documents, but the stream does not stop at the loader's return value: every document is saved, listed,
+# displayed (every tab), searched, and acted upon (the POST actions that are not a start) through the REAL long-lived
+# assembly behind the web UI (go/harness/load/display.go), for a DAG with no recorded status and no live agent (the
+# placeholder status model.NewStatusDefault is shown), for one with a status of today, and for one whose last run was yesterday.
+DISPLAY_STATES = ["fresh", "recorded", "old"]
+QUICK_SHAPES = ["bare", "dq-mid", "named-dq"] + QUOTED_ARG_SHAPES
+DISPLAY_WORKERS = int(os.environ.get("VERIF_C19_WORKERS", "6") or 6)
+# API calls every case must have made (a call that is missing from the answer was not checked)
+DISPLAY_CALLS = ["POST save", "GET /dags", "GET /dags?page&limit", "GET /dags?searchName", "GET /dags?searchTag", "GET /dags/{id}",
+                 "GET /dags/{id}?tab=status", "GET /dags/{id}?tab=spec", "GET /dags/{id}?tab=history", "GET /dags/{id}?tab=log",
+                 "GET /dags/{id}?tab=log(handler)", "GET /dags/{id}?tab=scheduler-log", "GET /search", "GET /search(text)", "GET /tags",
+                 "client.GetStatus", "client.GetAllStatus", "client.GetDAGSpec", "client.GetLatestStatus", "client.GetCurrentStatus",
+                 "client.GetRecentHistory", "POST suspend", "POST suspend(off)", "POST stop(not running)", "POST mark-success",
+                 "POST mark-failed", "POST save(again)", "POST rename", "GET /dags/{id}(renamed)", "POST rename(back)",
+                 "GET /dags/{id}(again)", "DELETE /dags/{id}"]
+DISPLAY_CALLS_WITH_RUN = ["GET /dags/{id}?tab=log&file", "GET /dags/{id}?tab=scheduler-log&file"]
+MAX_DISPLAY_VIOLATIONS = 12
+
+
+def call_entries(call):
+    """API call of the display stream -> the entries of the model's display table it goes through"""
+    if call.startswith("client."):
+        return [call]
+    if call.startswith("POST save"):
+        return ["client.UpdateDAG"]
+    if call.startswith("GET /dags/{id}"):
+        return ["fdag.getDetail"]
+    if call.startswith("GET /dags"):
+        return ["fdag.getList"]
+    if call.startswith("GET /search"):
+        return ["fdag.searchDAGs"]
+    if call.startswith("GET /tags"):
+        return ["fdag.getTagList"]
+    if call.startswith("DELETE"):
+        return ["fdag.deleteDAG"]
+    if call.startswith("POST suspend"):
+        return ["client.GetStatus", "client.ToggleSuspend"]
+    if call.startswith("POST stop"):
+        return ["client.GetStatus"]          # the DAG is not running: the handler answers after reading the status
+    if call.startswith("POST mark-"):
+        return ["client.GetStatus", "fdag.processUpdateStatus"]
+    if call.startswith("POST rename"):
+        return ["client.GetStatus", "client.Rename"]
+    return []
+
+
+def display_model(chk, loader_model):
+    """entry -> set of effect kinds the model's display table + loader table give it"""
+    rc, dout, derr = common.run_driver("load", "display\n")
+    if rc != 0 or not dout.startswith("display|"):
+        chk.oblige("driver-run:load-display", False, (derr or dout)[-2000:])
+        return None
+    m = {}
+    for cell in dout.strip().split("|")[1:]:
+        e, rest = cell.split("=", 1)
+        effs, loaders = rest.split(";", 1)
+        kinds = set()
+        for x in [x for x in effs.split(",") if x]:
+            kinds.add("setenv" if "Setenv" in x or "Clearenv" in x or "Unsetenv" in x else "exec")
+        for l in [l for l in loaders.split(",") if l]:
+            if l not in NON_EVAL:
+                kinds.add("evaluating-loader:" + l)
+            for (le, f), k in loader_model.items():
+                if le == l:
+                    kinds |= k
+        m[e] = kinds
+    return m
+RULE_DISPLAY = ("Display stream: the same documents (positions x shapes, incl. a command line with a quoted argument and a substitution outside "
+                "the quotes) x DAG state (fresh = no recorded status, no live agent: placeholder status; recorded today; last run yesterday) "
+                "through the real long-lived client + API handlers (save, list with filters, DAG page with every tab, search, tags, the "
+                "client's status calls, suspend / stop / mark / rename / delete); marker file and os.Environ() checked after every call; "
+                "quick tier: every shape in the command positions and in params / env / logDir, four shapes elsewhere")
+
+
+def is_cmd_pos(p):
+    """positions from which a step's / handler's command line (Step.CmdWithArgs) is assembled: `command` given as a string or a
+    list, the arguments of a function call and the function's template, the name and the parameters of a sub-workflow"""
+    path = p["path"]
+    if path == "functions[].command":
+        return True
+    if p.get("root") not in ("Steps", "HandlerOn"):
+        return False
+    last = path.rsplit(".", 1)[-1]
+    return (last == "command" and p["variant"] in ("str", "list")) or path.endswith("call.args") or last in ("run", "params")
+
+
+def display_cases(chk, plants, shapes):
+    cases = []
+    for p in plants:
+        cmd, top3 = is_cmd_pos(p), p.get("root") in ("Params", "Env", "LogDir")
+        for sh in shapes:
+            for st in DISPLAY_STATES:
+                if chk.tier == "quick":
+                    # every shape x {fresh, recorded} in the command positions (+ `old` for a command string), every shape for the
+                    # three evaluated fields, four representative shapes elsewhere
+                    if cmd:
+                        ok = st != "old" or (p["variant"] == "str" and p["path"].endswith(".command"))
+                    elif top3:
+                        ok = st == "fresh" or (st == "recorded" and sh in QUICK_SHAPES)
+                    else:
+                        ok = (st == "fresh" and sh in ("bare", "dq-mid", "dq-arg-then-bare", "sq-arg-then-bare")) or (st == "recorded" and sh == "dq-arg-then-bare")
+                    if not ok:
+                        continue
+                cases.append({"id": "display|%s|%s|%s|%s|%s" % (st, p["path"], p["variant"], sh, p.get("root", "")), "mode": "display",
+                              "path": p["path"], "variant": p["variant"], "root": p.get("root", ""), "shape": sh, "state": st})
+    return cases
+
+
+def display_start(chk, binp, cases):
+    """launch the display workers (each its own harness process = its own long-lived assembly and its own environment); they run
+    while the loader stream does"""
+    chk.rng.shuffle(cases)
+    n = max(1, min(DISPLAY_WORKERS, len(cases)))
+    chunks = [cases[i::n] for i in range(n)]
+    pool = ThreadPoolExecutor(max_workers=n)
+
+    def work(chunk):
+        p = subprocess.run([binp], input="\n".join(json.dumps(c) for c in chunk) + "\n", stdout=subprocess.PIPE,
+                           stderr=subprocess.PIPE, text=True, timeout=3000)
+        return p.returncode, p.stdout, p.stderr
+    return pool, [pool.submit(work, ch) for ch in chunks], cases
+
+
+def display_finish(chk, handle, replay, dmodel=None):
+    pool, futs, cases = handle
+    outs = []
+    import time
+    t_wait = time.time()
+    for f in futs:
+        rc, so, se = f.result()
+        if rc != 0:
+            chk.oblige("harness-run:display", False, se[-2000:])
+        for l in so.splitlines():
+            try:
+                outs.append(json.loads(l))
+            except ValueError:
+                chk.oblige("harness-run:display (answer is JSON)", False, l[:500])
+    pool.shutdown()
+    t_wait = time.time() - t_wait
+    byid = {c["id"]: c for c in cases}
+    chk.oblige("harness-run:display (every case answered)", len(outs) == len(cases) and all(o.get("id") in byid for o in outs),
+               "%d/%d" % (len(outs), len(cases)))
+    fired = {}          # (call, path) -> replay case
+    envch = {}
+    panics, errors, missing = [], [], []
+    started, shown_page, shown_spec, rec_ok = {}, {}, [], {"fresh": [0, 0], "recorded": [0, 0], "old": [0, 0]}
+    calls_seen = {}
+    for o in outs:
+        c = byid.get(o.get("id"))
+        if c is None:
+            continue
+        chk.evaluations += 1
+        chk.nontrivial.add(("display", c["state"], c["path"], c["variant"], c["shape"]))
+        if o.get("error"):
+            errors.append("%s: %s" % (c["id"], o["error"]))
+            continue
+        calls = {x["call"]: x for x in o.get("calls") or []}
+        want = DISPLAY_CALLS + (DISPLAY_CALLS_WITH_RUN if c["state"] != "fresh" else [])
+        miss = [k for k in want if k not in calls]
+        if miss:
+            missing.append("%s: %s" % (c["id"], miss[:4]))
+        for x in o.get("calls") or []:
+            calls_seen[x["call"]] = calls_seen.get(x["call"], 0) + 1
+            rc = dict(c, call=x["call"])
+            # ---- the property itself: no display / list / search / save / non-start action executes the command or touches the environment
+            if x.get("fired"):
+                fired.setdefault((x["call"], c["path"]), (rc, o.get("text", "")))
+            if x.get("envdiff"):
+                envch.setdefault((x["call"], c["path"]), (rc, x["envdiff"]))
+            if x.get("panic"):
+                panics.append("%s: %s: %s" % (c["id"], x["call"], x["panic"]))
+        # ---- controls
+        if o.get("started_fired"):
+            started.setdefault((c["path"], c["variant"]), set()).add(c["shape"])
+        if not calls.get("GET /dags/{id}?tab=spec", {}).get("shown"):
+            shown_spec.append(c["id"])
+        if o.get("saved") and calls.get("GET /dags/{id}", {}).get("shown"):
+            shown_page.setdefault((c["path"], c["variant"]), set()).add(c["shape"])
+        if o.get("saved") and calls.get("client.GetStatus", {}).get("code") == 0:
+            page, hist = calls.get("GET /dags/{id}", {}), calls.get("GET /dags/{id}?tab=history", {})
+            good = {"fresh": page.get("code") == 200 and not page.get("rec") and not hist.get("rec"),
+                    "recorded": page.get("code") == 200 and bool(page.get("rec")) and bool(hist.get("rec")),
+                    "old": page.get("code") == 200 and not page.get("rec") and bool(hist.get("rec"))}[c["state"]]
+            rec_ok[c["state"]][0 if good else 1] += 1
+    # ---- verdicts (one per api call x position; at most MAX_DISPLAY_VIOLATIONS of them are listed, the whole matrix is in the stats)
+    order = {k: i for i, k in enumerate(DISPLAY_CALLS + DISPLAY_CALLS_WITH_RUN)}
+
+    def pick(d):
+        keys = sorted(d, key=lambda k: (k[1], order.get(k[0], 99)))
+        chosen, seen_p, seen_c = [], set(), set()
+        for k in keys:                      # the first call that fires, for the first positions
+            if k[1] not in seen_p and len(chosen) < MAX_DISPLAY_VIOLATIONS // 2:
+                seen_p.add(k[1]); seen_c.add(k[0]); chosen.append(k)
+        for k in keys:                      # then calls not named yet
+            if k[0] not in seen_c and len(chosen) < MAX_DISPLAY_VIOLATIONS:
+                seen_c.add(k[0]); chosen.append(k)
+        return chosen
+    for k in pick(fired):
+        rc, text = fired[k]
+        chk.violation("C19:command-executed-by-display-path:%s:%s" % k,
+                      "the command planted in `%s` (shape %s: %s) was executed in the server process by `%s` for a DAG in state `%s` "
+                      "(fresh = no recorded status and no live agent: the placeholder status is shown; %d (api call, position) pairs fire "
+                      "in this run)" % (rc["path"], rc["shape"], text[:90], k[0], rc["state"], len(fired)), rc)
+    for k in pick(envch):
+        rc, diff = envch[k]
+        chk.violation("C19:environment-changed-by-display-path:%s:%s" % k,
+                      "`%s` changed the environment of the server process %s (canary in `%s`, shape %s, state %s)" % (
+                          k[0], diff[:4], rc["path"], rc["shape"], rc["state"]), rc)
+    # ---- correspondence: per API call, the effects observed over all its cases = what the model's tables give the entries it goes through
+    if dmodel is not None:
+        dis = []
+        for call in sorted(calls_seen):
+            obs = set()
+            if any(k[0] == call for k in fired):
+                obs.add("exec")
+            if any(k[0] == call for k in envch):
+                obs.add("setenv")
+            ents = call_entries(call)
+            want = set()
+            for e in ents:
+                want |= dmodel.get(e, {"entry-not-in-model:" + e})
+            if not ents:
+                want = {"call-not-mapped"}
+            if obs != want:
+                dis.append("%s: observed=%s model(%s)=%s" % (call, sorted(obs), ",".join(ents), sorted(want)))
+        chk.disagreements += len(dis)
+        chk.oblige("correspondence:display-effects (per API call: effects observed over all documents and states = the model's display "
+                   "table + loader table for the entries the call goes through, %d calls)" % len(calls_seen), not dis, "; ".join(dis[:6]))
+        if not replay:
+            starts = {e: k for e, k in dmodel.items() if e in ("client.Start", "client.StartAsync", "client.Restart", "client.Retry")}
+            chk.oblige("positive-control: the model's display table gives the start entries the client's exec site",
+                       len(starts) == 4 and all("exec" in k for k in starts.values()), str(starts))
+    chk.oblige("harness-run:display (no case failed to set its world up)", not errors, "; ".join(errors[:5]))
+    chk.oblige("harness-run:display (no API / client call panicked)", not panics, "; ".join(panics[:5]))
+    chk.oblige("display stream: every case made every API call of the list (%d calls + 2 with a run on file)" % len(DISPLAY_CALLS),
+               not missing, "; ".join(missing[:5]))
+    if not replay:
+        chk.oblige("positive-control: display stream: the definition tab shows the canary text in every case (the document is where the API reads it)",
+                   not shown_spec, "not shown: %s" % shown_spec[:5])
+        # the states are what they are meant to be: placeholder status / the recorded run / only the history shows yesterday's run
+        for st in DISPLAY_STATES:
+            chk.oblige("positive-control: display stream: state `%s` is what the DAG page shows (%s)" % (
+                st, {"fresh": "placeholder status, no run", "recorded": "the recorded run", "old": "placeholder status, the run only under history"}[st]),
+                rec_ok[st][0] > 0 and rec_ok[st][1] == 0, "as meant / not: %s" % rec_ok[st])
+        # the canary is live: STARTING the same document (evaluating load + the command split of node.setupExec) runs it
+        paths = sorted({(c["path"], c["variant"]) for c in cases if is_cmd_pos(c) and c["variant"] != "list"})
+        for (path, variant) in paths:
+            need = {"sq-arg-then-bare"} if path == "functions[].command" else set(QUOTED_ARG_SHAPES)
+            miss = sorted(need - started.get((path, variant), set()))
+            chk.oblige("positive-control: display stream: starting the document runs the quoted-argument canary planted in `%s`" % path,
+                       not miss, "shapes not firing when started: %s" % miss)
+            if path != "functions[].command":
+                miss = sorted(need - shown_page.get((path, variant), set()))
+                chk.oblige("positive-control: display stream: the DAG page shows the command line planted in `%s`" % path,
+                           not miss, "shapes not in the answer of GET /dags/{id}: %s" % miss)
+        for path in ("env", "params", "logDir"):
+            got = set()
+            for (p, v), shs in started.items():
+                if p == path:
+                    got |= shs
+            chk.oblige("positive-control: display stream: starting the document evaluates `%s`" % path, len(got) >= 10, str(sorted(got)))
+    return {"cases": len(cases), "answered": len(outs), "calls": calls_seen, "waited_for_workers_s": round(t_wait, 2),
+            "states": {st: sum(1 for c in cases if c["state"] == st) for st in DISPLAY_STATES},
+            "fired_matrix": sorted("%s <- %s" % k for k in fired), "env_matrix": sorted("%s <- %s" % k for k in envch),
+            "not_loadable_docs": sum(1 for o in outs if not o.get("saved"))}
+
+
 def run(chk, replay):
     chk.trusted = common.TRUSTED_COMMON + [
         "effects other than process execution and os.Setenv (e.g. file writes by a loader) are outside the table; the canaries observe "
@@ -51,15 +325,33 @@ def run(chk, replay):
         "go/parser reading internal/dag/definition.go in the harness to enumerate the plantable fields",
         "util.SplitCommandWithParse (go-shellwords with ParseBacktick) is listed as an exec site by the extractor; a `call:` step's command "
         "line is assembled by parseFuncCall (function template + argument values) — its canaries sit in functions[].command after the first "
-        "word and in call.args of steps and handlers"]
+        "word and in call.args of steps and handlers",
+        "display table: functions are keyed package.name (methods by name alone) and a method call on a value is resolved by name to every "
+        "function of that name in the display files (over-approximation); calls that leave the display files other than into "
+        "internal/dag's loader (jsondb history store, sock client, scheduler.NewExecutionGraph, go-swagger) are not followed — those "
+        "files are tied by their skeletons (areas Hist / Glue / ApiGen) and exercised by the display stream's canaries"]
     chk.assumptions = ["the table covers builder.go, parser.go, loader.go (the files the loader's build path lives in); condition.go's "
                        "substituteCommands call is run-time only (EvalConditions) and is exercised by the canaries in preconditions",
-                       "DAGStore.UpdateSpec/GetDetails/List reach the loader only through LoadYAML/LoadWithoutEval/LoadMetadata (skeleton tie)"]
+                       "DAGStore.UpdateSpec/GetDetails/List reach the loader only through LoadYAML/LoadWithoutEval/LoadMetadata (skeleton tie)",
+                       "display stream: the agent is not live (no socket answers); a live agent's status is the agent's own answer, built by "
+                       "the STARTED run (model.NewStatus in the agent process), which is allowed to evaluate"]
+    import time
+    t_0 = time.time()
     common.lean_obligations(chk, "BdModel/Props/C19.lean", TIE)
+    t_lean = time.time() - t_0
     binp, out = common.build_harness("load")
+    t_build = time.time() - t_0 - t_lean
     if not binp:
         chk.oblige("harness-build:load", False, out[-3000:]); return
     chk.oblige("harness-build:load", True)
+    chk.rule = RULE_DISPLAY
+    if replay and json.load(open(replay))["case"].get("mode") == "display":
+        # a display-stream case re-run alone (one harness process, the same calls in the same order)
+        c = json.load(open(replay))["case"]
+        case = {"id": c.get("id", "replay"), "mode": "display", "path": c["path"], "variant": c["variant"], "root": c.get("root", ""),
+                "shape": c.get("shape", "bare"), "state": c.get("state", "fresh")}
+        chk.stats = {"display": display_finish(chk, display_start(chk, binp, [case]), True)}
+        return
     # ---- model matrix
     rc, dout, derr = common.run_driver("load", "effects\n")
     if rc != 0 or not dout.startswith("effects|"):
@@ -95,6 +387,9 @@ def run(chk, replay):
         chk.oblige("field enumeration covers env, params, logDir, dir, command, script, stdout, stderr, output, preconditions, handlers, "
                    "mail/smtp, executor config, functions", not missing, "missing: %s" % missing)
         entries = list(ENTRY_MAP) + ["StartSplit"]
+    # ---- display stream: started now, runs in its own harness processes while the loader stream does
+    t_disp = time.time()
+    dh = None if replay else display_start(chk, binp, display_cases(chk, plants, shapes))
     cases = []
     for e in entries:
         for p in plants:
@@ -173,11 +468,16 @@ def run(chk, replay):
         for path in RUNTIME_PATHS:
             # the shapes go-shellwords' back-tick / $(…) parsing runs in that position (observed behaviour of the run-time split:
             # a substitution inside double quotes is not run for an argument; the first word of a command line is the program)
-            need = ({"two-commands", "indented"} if path == "functions[].command" else
-                    {"bare", "named-bare", "multi", "embedded", "indented", "two-commands", "dollar-paren"} if path.endswith("call.args") else
-                    {"dq-mid", "dq-end", "named-dq", "multi", "two-commands"})
+            need = ({"two-commands", "indented", "sq-arg-then-bare"} if path == "functions[].command" else
+                    {"bare", "named-bare", "multi", "embedded", "indented", "two-commands", "dollar-paren"} | set(QUOTED_ARG_SHAPES) if path.endswith("call.args") else
+                    {"dq-mid", "dq-end", "named-dq", "multi", "two-commands"} | set(QUOTED_ARG_SHAPES))
             miss = sorted(need - started.get(path, set()))
             chk.oblige("positive-control: starting the DAG runs the command planted in `%s`" % path, not miss, "shapes not firing: %s" % miss)
+    t_loader = time.time() - t_disp
+    dstats = display_finish(chk, dh, False, display_model(chk, model)) if dh else {}
+    if dh:
+        dstats["loader_stream_s"], dstats["display_total_s"] = round(t_loader, 2), round(time.time() - t_disp, 2)
+        dstats["lean_phase_s"], dstats["harness_build_s"] = round(t_lean, 2), round(t_build, 2)
     # ---- correspondence: observed (entry, field) matrix = model reach
     dis = 0
     for (e, p, root), kinds in sorted(observed.items()):
@@ -194,12 +494,12 @@ def run(chk, replay):
     if dis == 0:
         chk.oblige("correspondence:effects (observed (entry, field) effect matrix = model reach, %d cells)" % len(observed), True)
     chk.stats = {"plants": len(plants), "shapes": shapes, "live_under_load": {k: sorted(v) for k, v in sorted(live.items())},
-                 "entries": entries, "cases": len(cases), "load_outcomes": outcomes,
+                 "entries": entries, "cases": len(cases), "load_outcomes": outcomes, "display": dstats,
                  "cells_with_effect": sorted("%s:%s=%s" % (e, p, ",".join(sorted(k))) for (e, p, _), k in observed.items() if k)}
     chk.rule = ("every string-valued / any-typed field of definition.go (enumerated by parsing the file, so a new field is planted "
                 "automatically; any-typed fields as string, list, map, list-of-maps, executor as {type, config}) x %d lexical shapes of the "
                 "canary text (bare back-tick `touch <canary>`, name=value, double-quoted with the command at start / middle / end, named quoted, "
                 "escaped quotes, several items, embedded in text, single-quoted, indented, $(…), two commands; each with ${VERIF_CANARY_VAR}) "
                 "x entry points LoadYAML, LoadMetadata, LoadWithoutEval, DAGStore.UpdateSpec/GetDetails/List, and "
-                "Load as positive control; non-trivial = distinct (entry, path, variant, shape)" % len(shapes))
+                "Load as positive control; non-trivial = distinct (entry, path, variant, shape). " % len(shapes)) + RULE_DISPLAY
     chk.samples = [o for o in outs if o.get("fired") or o.get("envdiff")][:4] + outs[:2]
